@@ -369,6 +369,14 @@ func (e *Engine) checkHavocComplete(head, out *State, h *havocSet, where string)
 		if !ok && (strings.HasPrefix(k, "consumed:") || strings.HasPrefix(k, "sent:") || strings.HasPrefix(k, "closed:") || strings.HasPrefix(k, "ncalls:")) {
 			continue // stream / function value created inside the body
 		}
+		if strings.HasPrefix(k, "ncalled:") {
+			// call counters are only tracked on loop-free paths: after a loop that calls the callee the count is unknown
+			if e.ncalledDirty == nil {
+				e.ncalledDirty = map[string]bool{}
+			}
+			e.ncalledDirty[k] = true
+			continue
+		}
 		unsup("loop at %s changes %s, which the havoc analysis did not anticipate", where, k)
 	}
 	for k, v := range out.memV {
